@@ -196,7 +196,7 @@ impl Dyn {
                     VRecognizer::Str(s) => Rec::Str(s.clone()),
                     VRecognizer::Regex(r) => {
                         // the generated recogniser anchors the regex with '^'
-                        let pat = format!("^{}", r);
+                        let pat = format!("^(?:{})", r);
                         if cfg.fancy {
                             Rec::Fancy(fancy_regex::Regex::new(&pat).map_err(|e| e.to_string())?)
                         } else {
